@@ -541,46 +541,83 @@ func SameValue(a, b ssa.Value) bool { return sameValue(a, b) }
 // Unwrap strips conversions that do not change the identity of a value.
 func Unwrap(v ssa.Value) ssa.Value { return unwrap(v) }
 
-// GuardingConds returns the branch conditions that decide whether `in` executes: the conditions of
-// the If instructions D that dominate in's block and for which only one out-edge of D can lead to
-// `in` (without passing D again). taken[i] tells which outcome (true/false) leads to `in`.
+// GuardingConds returns the branch conditions that decide whether `in` executes within one pass
+// through the code: on the CFG without loop back edges, the If blocks D that dominate in's block
+// and from which exactly one successor can reach it.  The exit test of a loop is not a guard of
+// the code that follows the loop (it only says the loop terminated); the entry test of a loop is a
+// guard of its body.  taken[i] tells which outcome leads to `in`.
 func GuardingConds(fn *ssa.Function, in ssa.Instruction) (conds []ssa.Value, taken []bool) {
 	tb := in.Block()
+	isBack := func(u, v *ssa.BasicBlock) bool { return v.Dominates(u) }
+	reachDAG := func(start *ssa.BasicBlock) bool {
+		if start == tb {
+			return true
+		}
+		seen := map[*ssa.BasicBlock]bool{start: true}
+		work := []*ssa.BasicBlock{start}
+		for len(work) > 0 {
+			b := work[len(work)-1]
+			work = work[:len(work)-1]
+			for _, s := range b.Succs {
+				if isBack(b, s) {
+					continue
+				}
+				if s == tb {
+					return true
+				}
+				if !seen[s] {
+					seen[s] = true
+					work = append(work, s)
+				}
+			}
+		}
+		return false
+	}
+	reachFull := func(from, to *ssa.BasicBlock) bool {
+		seen := map[*ssa.BasicBlock]bool{from: true}
+		work := []*ssa.BasicBlock{from}
+		for len(work) > 0 {
+			b := work[len(work)-1]
+			work = work[:len(work)-1]
+			for _, s := range b.Succs {
+				if s == to {
+					return true
+				}
+				if !seen[s] {
+					seen[s] = true
+					work = append(work, s)
+				}
+			}
+		}
+		return false
+	}
 	for _, d := range fn.Blocks {
-		if len(d.Instrs) == 0 || d == tb && false {
+		if len(d.Instrs) == 0 || len(d.Succs) != 2 || d == tb {
 			continue
 		}
 		ifi, ok := d.Instrs[len(d.Instrs)-1].(*ssa.If)
-		if !ok || !d.Dominates(tb) || d == tb {
+		if !ok || !d.Dominates(tb) {
 			continue
 		}
-		reach := func(start *ssa.BasicBlock) bool {
-			if start == tb {
-				return true
+		t, f := reachDAG(d.Succs[0]), reachDAG(d.Succs[1])
+		if t == f {
+			continue
+		}
+		// loop header: is the reaching successor the loop exit?
+		header := false
+		for _, pr := range d.Preds {
+			if isBack(pr, d) {
+				header = true
 			}
-			seen := map[*ssa.BasicBlock]bool{start: true} // passing d again is allowed: a loop header does not guard what follows the loop
-			work := []*ssa.BasicBlock{start}
-			for len(work) > 0 {
-				b := work[len(work)-1]
-				work = work[:len(work)-1]
-				for _, s := range b.Succs {
-					if s == tb {
-						return true
-					}
-					if !seen[s] {
-						seen[s] = true
-						work = append(work, s)
-					}
-				}
+		}
+		if header {
+			reaching := d.Succs[0]
+			if f {
+				reaching = d.Succs[1]
 			}
-			return false
-		}
-		t, f := reach(d.Succs[0]), reach(d.Succs[1])
-		if t && f {
-			continue
-		}
-		if !t && !f {
-			continue
+			if reaching != d && !reachFull(reaching, d) {
+				continue // leaving the loop: not a guard of what follows
+			}
 		}
 		conds = append(conds, ifi.Cond)
 		taken = append(taken, t)
